@@ -65,6 +65,9 @@ fn main() {
                 found.extend(out);
             }
             events = st.yields + st.cross_thread_drops;
+            let (out, races) = threads::xthread_drop_race(24, iters.min(40), seed % 2 == 1);
+            execs += races;
+            found.extend(out);
             println!("xthread: {:?}", st);
         }
         "threads" => {
